@@ -521,6 +521,11 @@ func liveStackMakers() []recvMaker {
 			inner := stackage.Or().SetEncap(pair).Push("b", "c")
 			return stackage.And().SetEncap(pair[:1]).Push("a", inner, stackage.Cond("k", stackage.Eq, "v").SetEncap(pair[:1]))
 		}},
+		recvMaker{"OR-idxopts-nested-last", "Stack", func() any {
+			// both index options on and a non-empty nested Stack as the LAST element: a helper that looks one past the end
+			// (Reveal's and Defrag's scans) is handed the last element instead of nothing
+			return stackage.Or().SetForwardIndices(true).SetNegativeIndices(true).Push("x", stackage.And().Push("a", "b"))
+		}},
 		recvMaker{"OR-failing-validity", "Stack", func() any {
 			s := stackage.Or().Push("v1", "v2")
 			s.SetValidityPolicy(func(...any) error { return sentinelErr })
@@ -1069,7 +1074,10 @@ func cmdSweep(args []string) {
 						hasAny = true
 					}
 				}
-				if !hasAny {
+				// on the receiver with both index options on, the methods WITHOUT parameters are called too: their internal
+				// scans use the same index translation as the int-taking methods (Free releases the receiver and is left out)
+				noArg := mt.NumIn() == 0 && strings.Contains(rm.name, "idxopts") && m.Name != "Free"
+				if !hasAny && !noArg {
 					continue
 				}
 				for _, as := range argSets(mt, awkwardCatalogue(), *limit) {
